@@ -1,0 +1,42 @@
+package sql
+
+// Case-insensitivity as SQLite has it for keywords, names of tables, columns,
+// indexes, types and collations: only the ASCII letters fold. "É" and "é" are
+// different names; "ı" (dotless i) is not an "I".
+
+// ToLower lower-cases the ASCII letters in s.
+func ToLower(s string) string {
+	for i := 0; i < len(s); i++ {
+		if c := s[i]; c >= 'A' && c <= 'Z' {
+			b := []byte(s)
+			for j := i; j < len(b); j++ {
+				if c := b[j]; c >= 'A' && c <= 'Z' {
+					b[j] = c + 'a' - 'A'
+				}
+			}
+			return string(b)
+		}
+	}
+	return s
+}
+
+// ToUpper upper-cases the ASCII letters in s.
+func ToUpper(s string) string {
+	for i := 0; i < len(s); i++ {
+		if c := s[i]; c >= 'a' && c <= 'z' {
+			b := []byte(s)
+			for j := i; j < len(b); j++ {
+				if c := b[j]; c >= 'a' && c <= 'z' {
+					b[j] = c - 'a' + 'A'
+				}
+			}
+			return string(b)
+		}
+	}
+	return s
+}
+
+// EqualFold tells whether a and b are equal but for the case of ASCII letters.
+func EqualFold(a, b string) bool {
+	return len(a) == len(b) && ToLower(a) == ToLower(b)
+}
